@@ -374,7 +374,9 @@ def check_c18(tier):
          "rule": "each fault is one faulty connection followed by a health request on a fresh connection; faults: a valid "
                  "request truncated at every byte offset (FIN, and RST), random bytes, byte-level mutations of a valid "
                  "request, oversized heads, illegal header values, broken chunking, short bodies, panicking handlers with "
-                 "half-open connections lingering; distinct = distinct (kind, parameters) faults injected",
+                 "half-open connections lingering, bursts of connections reset as fast as they are opened (so that some "
+                 "are already reset when accept() returns them), and on a TLS server stalled / truncated / garbage / "
+                 "plain-HTTP handshakes; distinct = distinct (kind, parameters) faults injected",
          "samples": [json.loads(x) for x in lines if '"ev":"fault"' in x][:3],
          "faults_by_kind": kinds, "health_checks": nhealth, "trace_events_validated": validated_events,
          "tlc_states": res.distinct + states},
